@@ -16,13 +16,13 @@ exceptions as `err:Other` (OverflowError / ValueError of date arithmetic).
         (du.month = current code, du.monthprefix = the code before d8aa8bf73, du.monthfixed = alias of du.month)
   du.hms H|M|S num Y M D secs isFuture            -> timex TAB value | err:Other
   du.weekp Y M D secs swift early mid late        -> timex TAB begin TAB end | err:Other
-  du.weekend|du.weekendfixed Y M D secs swift     -> timex TAB begin TAB end | err:Other
+  du.weekend|du.weekendprefix Y M D secs swift    -> timex TAB begin TAB end | err:Other   (prefix = before 10db50e3c)
   du.monthp|du.yearp Y M D secs swift early late  -> timex TAB begin TAB end | err:Other
   du.ytd Y M D secs                               -> timex TAB begin TAB end
-  du.mtd Y M D secs                               -> timex TAB futureBegin TAB pastBegin TAB end
+  du.mtd|du.mtdprefix Y M D secs                  -> timex TAB futureBegin TAB pastBegin TAB end  (prefix = before f19a69b3f)
   du.restof W|MON|Y Y M D secs                    -> timex TAB begin TAB end | none | err:Other
   du.md Y M D secs m d                            -> timex TAB future TAB past
-  du.nwm|du.nwmfixed Y M D secs m d                        -> timex TAB future TAB past | err:Other  (parse_number_with_month)
+  du.nwm|du.nwmprefix Y M D secs m d (prefix = before 151a4ac9b)                        -> timex TAB future TAB past | err:Other  (parse_number_with_month)
   du.mdfixed Y M D secs m d                       -> future;past (repaired generate_dates) -/
 namespace RTV.Drv.CalH
 open RTV.Drv RTV.Py RTV.Cal RTV.DateUtils
@@ -137,9 +137,9 @@ def hYtd : Handler
   | [y, m, d, s] => show3 (some (yearToDate (mkDT y m d s)))
   | _ => "bad-op"
 
-def hMtd : Handler
+def hMtd (f : DateTime → Str × DateTime × DateTime × DateTime) : Handler
   | [y, m, d, s] =>
-    let (t, f, p, e) := monthToDate (mkDT y m d s)
+    let (t, f, p, e) := f (mkDT y m d s)
     s!"{showStr t}\t{showDT f}\t{showDT p}\t{showDT e}"
   | _ => "bad-op"
 
@@ -160,11 +160,11 @@ def hMd : Handler
   | _ => "bad-op"
 
 def hNwm : Handler
-  | [y, m, d, s, mm, dd] => show3 (numberWithMonth (mkDT y m d s) (parseNat mm) (parseNat dd))
+  | [y, m, d, s, mm, dd] => show3 (numberWithMonthPreFix (mkDT y m d s) (parseNat mm) (parseNat dd))
   | _ => "bad-op"
 
 def hNwmFixed : Handler
-  | [y, m, d, s, mm, dd] => show3 (numberWithMonthFixed (mkDT y m d s) (parseNat mm) (parseNat dd))
+  | [y, m, d, s, mm, dd] => show3 (numberWithMonth (mkDT y m d s) (parseNat mm) (parseNat dd))
   | _ => "bad-op"
 
 def hMdFixed : Handler
@@ -198,17 +198,20 @@ def dispatchCal (op : String) (args : List String) : Option String :=
   | "du.hms" => some (hHms args)
   | "du.weekp" => some (hWeekP args)
   | "du.weekend" => some (hPeriod weekendPeriod args)
-  | "du.weekendfixed" => some (hPeriod weekendPeriodFixed args)
+  | "du.weekendfixed" => some (hPeriod weekendPeriod args)
+  | "du.weekendprefix" => some (hPeriod weekendPeriodPreFix args)
   | "du.monthp" => some (hPeriodEL monthPeriodP args)
   | "du.yearp" => some (hPeriodEL yearPeriodP args)
   | "du.ytd" => some (hYtd args)
-  | "du.mtd" => some (hMtd args)
+  | "du.mtd" => some (hMtd monthToDate args)
+  | "du.mtdprefix" => some (hMtd monthToDatePreFix args)
   | "du.restof" => some (hRestOf args)
   | "du.year" => some (hPeriod yearPeriod args)
   | "du.md" => some (hMd args)
   | "du.mdfixed" => some (hMdFixed args)
-  | "du.nwm" => some (hNwm args)
+  | "du.nwm" => some (hNwmFixed args)
   | "du.nwmfixed" => some (hNwmFixed args)
+  | "du.nwmprefix" => some (hNwm args)
   | _ => none
 
 end RTV.Drv
